@@ -143,6 +143,8 @@ def floors(tier):
                                       '__array_ufunc__', 'sum', 'add')]
     cells += [('container', k) for k in ('list', 'list:nested', 'list:str', 'tuple', 'ndarray:f', 'ndarray:i', 'ndarray:U')]
     cells += [('history', r) for r in ROUTES] + [('mutation', m) for m in MUTATIONS] + [('view',), ('container-functions',), ('config', 'attribute'), ('config', 'kwarg'), ('config', 'Config')]
+    cells += [('history_rank', r, k) for r in ('np_transpose', 'T', 'flatten', 'ravel', 'm_transpose') for k in (0, 1, 2)]
+    cells += [('view_mutation', vm) for vm in ('resize', 'resize_frac', 'config', 'flag_reset')]
     return cells
 
 
@@ -195,14 +197,21 @@ def run_case(case, ctx):
         route = ROUTES[i % len(ROUTES)]
         s, w, nf = G.conventional_format(rng, 4, 16)
         r, o = rng.choice(G.MODES)
-        arr = (i // len(ROUTES)) % 2 == 1 or route in ('np_sum', 'm_sum', 'm_max', 'np_transpose', 'T', 'flatten', 'ravel', 'm_transpose', 'np_sort', 'm_cumsum', 'np_diagonal')
+        rank = (0, 2, 1)[(i // len(ROUTES)) % 3]
+        if route in ('np_sum', 'm_sum', 'm_max', 'np_sort', 'm_cumsum', 'np_diagonal'):
+            rank = 2                # (called with an axis / need a matrix)
+        elif route in ('np_transpose', 'T', 'flatten', 'ravel', 'm_transpose') and rank == 0 and (i // len(ROUTES)) % 2 == 0:
+            rank = 1                # degenerate shapes (scalar, vector) of the shape-changing routes are wanted as often as matrices
+        arr = rank > 0
         lo, hi = R.code_range(s, w)
 
         def val():
             c = rng.randint(max(lo, -6), min(hi, 6))
             return float(F(c) * R.lsb(nf))
-        A = Fxp(np.array([val(), val(), val(), val()]).reshape(2, 2) if arr else val(), s, w, nf, rounding=r, overflow=o)
-        C = Fxp(np.array([[val(), val()], [val(), val()]]) if arr else val(), s, w, nf)
+        def vals_of_rank():
+            return np.array([val(), val(), val(), val()]).reshape(2, 2) if rank == 2 else (np.array([val(), val(), val()]) if rank == 1 else val())
+        A = Fxp(vals_of_rank(), s, w, nf, rounding=r, overflow=o)
+        C = Fxp(vals_of_rank(), s, w, nf)
         T = Fxp(None, True, 20, 6, rounding='around')
         Tsnap = snp(T)
         B = None
@@ -247,7 +256,7 @@ def run_case(case, ctx):
         elif route == 'clip':
             B = _try(lambda: A.clip(float(A.lower) / 2, float(A.upper) / 2))
         elif route == 'equal':
-            B = Fxp(np.zeros((2, 2)) if arr else None, s, w + 2, nf + 1)
+            B = Fxp(np.zeros(np.shape(A.val)) if arr else None, s, w + 2, nf + 1)
             _try(lambda: B.equal(A))
         elif route == 'T':
             B = _try(lambda: A.T)
@@ -279,6 +288,8 @@ def run_case(case, ctx):
             ctx.violation('derivation_failed', 'route %s produced no object' % route)
             return
         ctx.floor_hit(('history', route))
+        if route in ('np_transpose', 'T', 'flatten', 'ravel', 'm_transpose'):
+            ctx.floor_hit(('history_rank', route, rank))
         for side in ('derived', 'source'):
             mut = MUTATIONS[(i // 3 + (0 if side == 'derived' else 3)) % len(MUTATIONS)]
             X, Y = (B, A) if side == 'derived' else (A, B)      # mutate X, watch Y (and the template)
@@ -316,8 +327,40 @@ def run_case(case, ctx):
                               extra={'before': before.describe(), 'after': after.describe()}, key='history.%s' % route)
             if route in ('like', 'out_like') and not same(Tsnap, snp(T)):
                 ctx.violation('template_changed', 'route %s / mutation %s changed the template object' % (route, mut), key='history.%s.template' % route)
-            ctx.judged(('history', route, mut, side, arr), True, {'route': route, 'mutation': mut, 'mutated': side, 'watched_before': before.describe(), 'watched_after': after.describe()} if ctx.want_sample() else None)
+            ctx.judged(('history', route, mut, side, rank), True, {'route': route, 'mutation': mut, 'mutated': side, 'watched_before': before.describe(), 'watched_after': after.describe()} if ctx.want_sample() else None)
             ctx.floor_hit(('mutation', mut))
+        # indexing returns a view of the VALUES only: configuration and status record of the element object are its own, and changing its FORMAT
+        # (resize re-stores the element's values in the new format) must not touch the parent's codes
+        if arr:
+            P = Fxp(vals_of_rank(), s, w, nf, rounding=r, overflow=o)
+            sel = rng.choice([lambda p: p[0], lambda p: p[-1], lambda p: p[0:1], lambda p: p[::-1]] + ([lambda p: p[:, 1], lambda p: p[1, 0:2]] if rank == 2 else [lambda p: p[1:3]]))
+            V = _try(lambda: sel(P))
+            if isinstance(V, Fxp):
+                before = snp(P)
+                vm = ('resize', 'resize_frac', 'config', 'flag_reset')[(i // 7) % 4]
+                try:
+                    if vm == 'resize':
+                        V.resize(True, V.n_word + 3, V.n_frac + 2)
+                    elif vm == 'resize_frac':
+                        V.resize(n_frac=V.n_frac + 2, n_word=V.n_word + 2)
+                    elif vm == 'config':
+                        V.config.rounding = 'ceil' if V.config.rounding != 'ceil' else 'floor'
+                        V.config.overflow = 'wrap' if V.config.overflow != 'wrap' else 'saturate'
+                    else:
+                        V.status['overflow'] = True
+                        V.status['inaccuracy'] = True
+                        V.reset()
+                except Exception as e:
+                    ctx.notes['view_mutation_exception:%s:%s' % (vm, type(e).__name__)] += 1
+                else:
+                    after = snp(P)
+                    if not same(before, after):
+                        what = [n for n, a, b in zip(('signed', 'n_word', 'n_frac', 'n_int', 'shape', 'codes', 'imag', 'status', 'config', 'scale', 'bias', 'upper', 'lower', 'precision'),
+                                                     before.key(), after.key()) if a != b]
+                        ctx.violation('not_independent', 'an element object obtained by indexing was changed by %s and its parent changed (%s)' % (vm, ','.join(what)),
+                                      extra={'before': before.describe(), 'after': after.describe()}, key='history.view.%s' % vm)
+                    ctx.judged(('view', vm, rank), True, None)
+                    ctx.floor_hit(('view_mutation', vm))
         return
     if k == 'template':
         # README pattern: several values cast like one template; one of them inexact
